@@ -734,6 +734,31 @@ def check(index, ctx):
     if n_bad == 0 and n_unk == 0:
         ctx.ok("R2", f"nested terms: {n_terms} terms of depth <= 2 (5 Select leaves, empty conjunction)", "constructors accept exactly the well-formed terms and declare the documented keys", Conj.loc())
     ctx.floor("nested transform terms enumerated", n_terms, 300)
+    # ------------------------------------------------------------------------------------------------ R2 Stack
+    StackC = index.find_class(f"{T}.stack.Stack")
+    if StackC is not None:
+        STK = {
+            "members require the same keys": ([("r",), ("r",), ("r",)], True),
+            "one member requires other keys": ([("r",), ("r",), ("s",)], False),
+            "the first member requires a superset": ([("r", "s"), ("r",), ("r",)], False),
+        }
+        for name, (reqs, should_build) in STK.items():
+            members = [make_select(r, r) for r in reqs]
+            if any(m is None for m in members):
+                ctx.undecided("R2", f"Stack: scenario {name}", "could not build members", StackC.loc())
+                continue
+            lst = ListV(items=tuple(members), kind="list")
+            res = I.run_paths(lambda: I.instantiate(StackC, [lst], {}, StackC.node, None))
+            raised = [r for r in res if r.kind == "raise" and r.exc.exc_name == "ValueError"]
+            built = [r for r in res if r.kind == "return"]
+            unk = [e for r in res for e in r.events if e["kind"] in ("unknown", "unknown_call")]
+            if unk:
+                ctx.undecided("R2", f"Stack: {name}", f"construct outside the analysed subset: {unk[0]['loc']} {unk[0].get('why')} `{unk[0]['text']}`", unk[0]["loc"])
+                continue
+            good = (should_build and built and not raised) or (not should_build and raised and not built)
+            ctx.require(good, "R2", f"Stack: {name}", "built" if should_build else "rejected with ValueError",
+                        f"members require {reqs}: {len(built)} paths build the stack, {len(raised)} raise ValueError (expected: {'built' if should_build else 'rejected'})", StackC.loc(),
+                        derivation={"required": [list(r) for r in reqs]})
     # ------------------------------------------------------------------------------------------------ R7 one-shot key collections
     ctx.rule("R7", "a transform constructor (or helper) that receives its keys as an Iterable materialises them before any other traversal: a check that walks a one-shot iterable "
                    "leaves nothing for the assignment that follows, so the declared keys would not be the ones passed")
